@@ -218,18 +218,25 @@ impl Worker for W {
         // ---- suggestions are in scope: substitute and ask the checker
         if clean {
             let mut tried = 0;
+            let mut nth_ident = 0usize;
             for (span, iname, _) in ids.found.iter() {
                 if span.start().to_usize() < base {
                     continue;
                 }
                 let (s, e) = (span.start().to_usize() - base, span.end().to_usize() - base);
-                if s < body_start || e > src.len() || s >= e || !src.is_char_boundary(s) || !src.is_char_boundary(e) || &src[s..e] != iname.as_str() || tried >= 8 {
+                if s < body_start || e > src.len() || s >= e || !src.is_char_boundary(s) || !src.is_char_boundary(e) || &src[s..e] != iname.as_str() || tried >= 40 {
                     continue;
                 }
-                // cursor after the first character of the identifier
-                let pos = BytePos::from((base + s + 1) as u32);
-                let sugg = gluon_completion::suggest(&env, whole, expr.expr(), pos);
-                for sg in sugg.iter().take(10) {
+                // cursor after the first character of the identifier (prefix = that character) or,
+                // every other time, at its start (empty prefix: everything in scope is offered)
+                nth_ident += 1;
+                let pos = BytePos::from((base + s + (nth_ident % 2)) as u32);
+                let mut sugg = gluon_completion::suggest(&env, whole, expr.expr(), pos);
+                // a different sample of the offered names at every position (they come sorted)
+                let mut pick = crate::rng::Rng::new(h ^ (s as u64));
+                pick.shuffle(&mut sugg);
+                r.stat("scope_positions_queried", 1).stat("scope_position_suggestions", sugg.len() as u64);
+                for sg in sugg.iter().take(12) {
                     if sg.name == *iname || !sg.name.chars().all(|c| c.is_alphanumeric() || c == '_') {
                         continue;
                     }
@@ -250,6 +257,49 @@ impl Worker for W {
                     } else if res.is_err() {
                         self.vm = None;
                         break;
+                    }
+                }
+            }
+        }
+        // ---- the same at literal positions: with no identifier under the cursor everything in
+        // scope is offered; each sampled lowercase name replaces the literal and the checker says
+        // whether it is bound there
+        if clean && self.vm.is_some() {
+            let toks = crate::lang::mutate::scan(src);
+            let lits: Vec<&crate::lang::mutate::Tok> = toks.iter().filter(|t| t.kind == crate::lang::mutate::TokKind::Int && t.start >= body_start).collect();
+            let mut tried = 0;
+            let mut pick = crate::rng::Rng::new(h ^ 0x5eed);
+            for k in 0..lits.len().min(6) {
+                let t = lits[(k * 7 + (h as usize % 5)) % lits.len()];
+                let pos = BytePos::from((base + t.start) as u32);
+                let mut sugg = gluon_completion::suggest(&env, whole, expr.expr(), pos);
+                r.stat("literal_positions_queried", 1).stat("literal_position_suggestions", sugg.len() as u64);
+                pick.shuffle(&mut sugg);
+                for sg in sugg.iter().filter(|sg| sg.name.chars().next().map_or(false, |c| c.is_ascii_lowercase()) && sg.name.chars().all(|c| c.is_ascii_alphanumeric() || c == '_')).take(8) {
+                    if tried >= 40 {
+                        break;
+                    }
+                    tried += 1;
+                    let new_src = format!("{}{}{}", &src[..t.start], sg.name, &src[t.end..]);
+                    let res = crate::worker::guarded(|| vm.typecheck_str(&format!("{}_lit{}", name, tried), &new_src, None).map(|_| ()).map_err(|e| e.to_string()));
+                    r.stat("suggestions_scope_checked", 1);
+                    match res {
+                        Ok(Err(msg)) => {
+                            if msg.contains(&format!("Undefined variable `{}`", sg.name)) {
+                                let mut v = CaseResult::violation(
+                                    h,
+                                    format!("`{}` is suggested at byte {} (on the literal `{}`) but is not in scope there: the checker says Undefined variable\n--- program\n{}", sg.name, t.start, &src[t.start..t.end], src),
+                                    json!({"kind": "suggestion-not-in-scope"}),
+                                );
+                                v.stats = r.stats;
+                                return v;
+                            }
+                        }
+                        Ok(Ok(())) => {}
+                        Err(_) => {
+                            self.vm = None;
+                            return r;
+                        }
                     }
                 }
             }
